@@ -46,9 +46,9 @@ def op_strategy(draw, kind):
         name = draw(st.sampled_from(['x', 'y', 'zed']))
         args = [name, draw(VAL)] if m == 'setattr' else [name]
     else:  # VCounter
-        m = draw(st.sampled_from(['add', 'add', 'get', 'fail', 'echo', 'add_bad', 'managed']))
-        args = {'add': lambda: [draw(st.integers(-3, 3))], 'get': lambda: [], 'fail': lambda: [draw(st.sampled_from(['value', 'key', 'index', 'custom', 'attr', 'zero', 'eof', 'timeout', 'stopiter', 'oserror'])), draw(VAL)], 'echo': lambda: [draw(VAL)],
-                'add_bad': lambda: [draw(st.text(max_size=2))], 'managed': lambda: [draw(VALS), draw(VAL)]}[m]()
+        m = draw(st.sampled_from(['add', 'add', 'get', 'fail', 'echo', 'add_bad', 'managed', 'shared']))
+        args = {'add': lambda: [draw(st.integers(-3, 3))], 'get': lambda: [], 'fail': lambda: [draw(st.sampled_from(['value', 'key', 'index', 'custom', 'attr', 'zero', 'eof', 'timeout', 'stopiter', 'oserror', 'unpicklable'])), draw(VAL)], 'echo': lambda: [draw(VAL)],
+                'add_bad': lambda: [draw(st.text(max_size=2))], 'managed': lambda: [draw(VALS), draw(VAL)], 'shared': lambda: [draw(VAL)]}[m]()
     return [m, args]
 
 
@@ -77,7 +77,7 @@ def _tup(x):
 def fix_args(kind, m, args):
     out = []
     for a in args:
-        if isinstance(a, list) and not (kind == 'list' and m in ('extend', '__iadd__', '__add__')) and not (kind == 'VCounter' and m == 'managed'):
+        if isinstance(a, list) and not (kind == 'list' and m in ('extend', '__iadd__', '__add__')) and not (kind == 'VCounter' and m in ('managed', 'shared')):
             out.append(_tup(a))
         elif isinstance(a, list):
             out.append([_tup(v) for v in a])
@@ -125,6 +125,11 @@ def apply_local(kind, twin, m, args):
             lst = list(args[0])
             lst.append(args[1])
             return ('value', lst)
+        if m == 'shared':
+            if not hasattr(twin, '_shared'):
+                twin._shared = ['shared']
+            twin._shared.append(args[0])
+            return ('value', list(twin._shared))
         return ('value', getattr(twin, m)(*args))
     except Exception as e:
         return ('raised', type(e).__name__, e.args)
@@ -167,6 +172,15 @@ def apply_proxy(kind, p, m, args):
             return ('value', None)
         if m == 'add_bad':
             return ('value', p.add(*args))
+        if m == 'shared':
+            # the same retained server-side value wrapped twice: both proxies are live, and dropping one leaves the other usable
+            q1 = p.shared_list()
+            q2 = p.shared_list()
+            if not hasattr(q1, '_callmethod') or not hasattr(q2, '_callmethod'):
+                return ('value', ('NOT-A-PROXY', q1, q2))
+            del q1
+            q2.append(args[0])
+            return ('value', q2[:])
         if m == 'managed':
             q = p.make_managed_list(args[0])
             if not hasattr(q, '_callmethod'):
@@ -295,7 +309,8 @@ def _run(spec):
             exp = apply_local(kind, ob['twin'], m, copy.deepcopy(args))
             if kind == 'list' and m in ('__imul__', '__iadd__') and exp[0] == 'value':
                 pass
-            if where == 'helper' and not (kind == 'VCounter' and m == 'managed') and not (kind == 'list' and m in ('__imul__', '__iadd__')):
+            unpicklable = kind == 'VCounter' and m == 'fail' and args and args[0] == 'unpicklable'
+            if where == 'helper' and not unpicklable and not (kind == 'VCounter' and m in ('managed', 'shared')) and not (kind == 'list' and m in ('__imul__', '__iadd__')):
                 got = helper_apply(r, ob['slot'], kind, m, args)
             elif where == 'thread':
                 box = {}
@@ -307,7 +322,25 @@ def _run(spec):
                 got = apply_proxy(kind, ob['p'], m, args)
             used.add((o, where))
             desc = f'step {step}: {kind}.{m}{tuple(args)} via {where}'
-            if exp[0] == 'value':
+            if unpicklable:
+                # the exception cannot be sent as it is: the caller must still get an error (of whatever kind), and the connection of
+                # this thread must stay usable (checked by the state comparison right below, which goes through the same connection)
+                if got[0] != 'raised':
+                    raise Violation('missing_exception', f'{desc}: direct call raises, proxy call returned {got[1]!r}', signature=['missing_exception', kind, m])
+                try:
+                    if where == 'thread':
+                        box2 = {}
+                        t2 = threading.Thread(target=lambda: box2.setdefault('r', apply_proxy(kind, ob['p'], 'get', [])))
+                        t2.start()
+                        t2.join(60)
+                        again = box2.get('r', ('raised', 'HANG', ()))
+                    else:
+                        again = apply_proxy(kind, ob['p'], 'get', [])
+                except BaseException as e:
+                    again = ('raised', type(e).__name__, e.args)
+                if again[0] != 'value':
+                    raise Violation('connection_unusable_after_error', f'{desc} raised {got[1]}; the next call through the same proxy raised {again[1]}{again[2]}', signature=['connection_unusable_after_error'])
+            elif exp[0] == 'value':
                 if got[0] != 'value':
                     raise Violation('unexpected_exception', f'{desc}: direct call returns {exp[1]!r}, proxy call raised {got[1]}{got[2]}', signature=['unexpected_exception', kind, m])
                 if got[1] != exp[1] or type(got[1]) is not type(exp[1]):
